@@ -2,6 +2,7 @@
 import json
 
 from lib import common as C
+from lib import lockskel as LS
 from lib import histcheck as H
 from lib import histprops as P
 from lib import parcheck as PC
@@ -83,6 +84,7 @@ def run(rep):
     proof_ok = C.proof_step(rep, "C06")
     C.ensure_driver()
     fsdbh = C.ensure_harness()
+    sk = LS.check(rep, fsdbh, ["Store", "UpdateTx", "DeleteOld", "DeleteTx", "Get", "GetFiles"])
     known = {f["id"]: f for f in C.known_findings("C06") if f.get("status") == "open"}
     # 1. the scripted witness of C06_read_atomic_refuted
     wit = [c for c in P.corpus("conc_witnesses.txt") if c.split("\n")[0].split()[1] == "d11"]
@@ -103,8 +105,10 @@ def run(rep):
             rep.violation(dict(kind="oracle", what="read returned %s" % r, case=c, impl=o))
     # 2. concurrent groups under the real scheduler: linearizability against the model
     n = 150 if rep.tier == "quick" else 3000
+    if LS.broken(sk):
+        n = max(n, 1500)        # a proof obligation about the source broke: search harder for a concrete failing input
     cases = [gen_case(rng, "l%d" % i) for i in range(n)]
-    impl = H.run_sharded(fsdbh, "hist", cases)
+    impl = H.run_sharded(fsdbh, "hist", cases, timeout=150 if rep.tier == "quick" else 900)
     orders, unmatched, sizes = {}, 0, {}
     for c, o in zip(cases, impl):
         g = len(PC.groups_of(c))
@@ -133,6 +137,7 @@ def run(rep):
         traces_validated_against_impl=len(cases) + len(wit),
         samples=[dict(case=cases[0].split("\n"), impl=impl[0])],
         refuted_theorems=["C06_read_atomic_refuted"], partial_theorems=["C06_read_linearizable_partial"], proof_ok=proof_ok)
+    LS.conclude(rep, sk, 'strictly increasing acquisition order and one critical section per operation: C06_acquisitions_ordered, C06_one_critical_section')
     rep.assumptions = ["a critical section under a Go mutex is one atomic step (C06_atomic_steps_linearize is about sequences of such steps); "
                        "interleavings inside a step, RWMutex writer preference and torn reads of unprotected memory (C15) are outside the model",
                        "the lock sequences in fsdb_lock_sequences are read from the source, not extracted from it",
